@@ -213,7 +213,7 @@ def posOfOid (s : State) (oid : Nat) : Option Src :=
 /-- the abstract position a field reference stands for -/
 def refPos (s : State) : FRef → Option Src
   | .byName d fn c => some ⟨d, fn, c⟩
-  | .byHandle h => (s.handles[h]?).bind fun hd => posOfOid s hd.oid
+  | .byHandle h => (s.handles[h]?).bind fun hd => if hd.closed then none else posOfOid s hd.oid
 
 /-- the field a call is handed, if it takes one -/
 def Op.ref : Op → Option FRef
@@ -262,5 +262,67 @@ def Op.touches (src : Option Src) : Op → Src → Prop
   | .moveFrame sd sfn d fn, p => (p.d, p.frame) = (d, fn) ∨ (p.d, p.frame) = (sd, sfn)
   | .reopen _, _ => False
   | .view _, _ => False
+
+/-! #### when a call returns: the abstract pre-condition of every call -/
+
+def Cat.hasFrame (A : Cat) (d : Nat) (fn : Name) : Bool := (A d fn).isSome
+def Cat.hasCol (A : Cat) (d : Nat) (fn n : Name) : Bool := (A.col ⟨d, fn, n⟩).isSome
+
+/-- the field a call is handed exists (a looked-up name that is a column; a held object whose field is still there) -/
+def srcLive (src : Option Src) (A : Cat) : Bool :=
+  match src with
+  | some p => (A.col p).isSome
+  | none => false
+
+/-- the pre-check of `rename`, on an abstract frame (`RenameOk` with "is a column" read off the frame) -/
+def renameOkF (dict : List (Name × Name)) (F : Frame) : Bool :=
+  decide (dict.map (·.1)).Nodup && dict.all (fun p => (F p.1).isSome) && decide (dict.map (·.2)).Nodup &&
+  dict.all (fun p => !(F p.2).isSome || decide (p.2 ∈ dict.map (·.1)))
+
+/-- Exactly when a call returns normally (otherwise it raises and, by `specCall`, changes nothing).
+    `writeable()` is left out (`true`): whether it raises depends on the object's `_valid_reference` only. -/
+def specOk (src : Option Src) (A : Cat) : Op → Bool
+  | .create d fn n _ => A.hasFrame d fn && !A.hasCol d fn n
+  | .setItem d fn n _ => srcLive src A && A.hasFrame d fn && !A.hasCol d fn n
+  | .copyField _ d fn n => srcLive src A && A.hasFrame d fn && !A.hasCol d fn n
+  | .add d fn _ => match src with | some p => srcLive src A && A.hasFrame d fn && !A.hasCol d fn p.col | none => false
+  | .delItem d fn n => A.hasCol d fn n
+  | .drop d fn n => A.hasCol d fn n
+  | .deleteField d fn _ => match src with | some p => srcLive src A && decide ((p.d, p.frame) = (d, fn)) | none => false
+  | .rename d fn dict => match A d fn with | some F => renameOkF dict F | none => false
+  | .moveField _ d fn n =>
+    match src with
+    | some p =>
+      srcLive src A &&
+      (match A d fn with
+       | some F => if (p.d, p.frame) = (d, fn) then renameOkF [(p.col, n)] F else !(F n).isSome
+       | none => false)
+    | none => false
+  | .createFrame d fn none => !A.hasFrame d fn
+  | .createFrame d fn (some (sd, sfn)) => A.hasFrame sd sfn && !A.hasFrame d fn
+  | .requireFrame _ _ => true
+  | .copyFrame sd sfn d fn => A.hasFrame sd sfn && !A.hasFrame d fn
+  | .setFrame d fn sd sfn => A.hasFrame sd sfn && !A.hasFrame d fn
+  | .delFrame d fn => A.hasFrame d fn
+  | .dropFrame d fn => A.hasFrame d fn
+  | .deleteFrame d sd sfn => A.hasFrame sd sfn && A.hasFrame d sfn
+  | .moveFrame sd sfn d fn => A.hasFrame sd sfn && !A.hasFrame d fn
+  | .reopen _ => true
+  | .view _ => true
+
+def Op.isView : Op → Bool
+  | .view _ => true
+  | _ => false
+
+/-- THE abstract catalogue machine: a call whose pre-condition holds takes effect, any other call raises and changes nothing.
+    All it is told besides the call is where the field object handed in sits (`src`). -/
+def specNext (A : Cat) (c : Op × Option Src) : Cat := if specOk c.2 A c.1 then specStep c.2 A c.1 else A
+
+def specExec (A : Cat) (cs : List (Op × Option Src)) : Cat := cs.foldl specNext A
+
+/-- the calls of a history, each with the position of the field object it was handed at that moment -/
+def srcLog (v : Variant) : State → List Op → List (Op × Option Src)
+  | _, [] => []
+  | s, op :: ops => (op, srcOf s op) :: srcLog v (step v s op).state ops
 
 end Exetera.Catalogue
